@@ -87,7 +87,8 @@ def gen_labels(rnd: random.Random, n: int, style: str | None = None, mol: int = 
     non-contiguous."""
     if n == 0:
         return []
-    style = style or rnd.choice(["atomic", "atomic", "gaps", "negatives", "shuffled", "molecular"])
+    style = style or rnd.choice(["atomic", "atomic", "atomic", "gaps", "gaps", "negatives", "negatives", "shuffled", "shuffled",
+                                 "molecular", "molecular", "allneg"])
     if style == "molecular" or mol > 1:
         m = max(mol, 2) if style == "molecular" else mol
         labels = [i // m for i in range(n)]
